@@ -235,6 +235,7 @@ L_IDENTS = [b"x", b"tasks", b"taskx", b"task", b"join", b"T", "é".encode(), b"_
 # names the grammar does not admit today (a digit, a hyphen, a dot inside): every text with one of them is rejected by the unchanged
 # lexer, so they demand nothing there -- but a change that widens the grammar makes them parse, and then C07 C11 C15 apply to them
 L_IDENTS_WIDE = [b"task2", b"task_2", b"x1", b"py3", b"tasks3", b"a-b", b"a.b", b"task-a"]
+L_STRS_WIDE = [b'"say \\"hi\\""', b'"one\\" \\"two"', b'"a\\"b"']     # escaped quotes: not part of today's grammar either
 L_STRS = [b'"a"', b'""', b'"task"', b'"*.go"', b'"a b"', b'"a\\b"', b'"50%"', b'"x\ty"', b'"\nabc"', b'"\n"']
 L_COMMENTS = [b" c", b"", b" ", b"x", b" task t() {", b"#"]
 L_CMDS = [b"go build", b"x", b"echo {{.x}}", b"ls -l", b"task x", b"echo a\r", b"ls \r", b"a\r\r", b"b  ", b"echo {{", b"x}} y", b"echo {{ .x", b"}} z"]
@@ -244,6 +245,7 @@ L_SEPS = [b"", b"", b" ", b" ", b"\n", b"\n", b"\t", b"  ", b"\n\n", b" \n", b"\
 def loose_text(rnd, wide=False):
     toks = []
     L_IDENTS = globals()["L_IDENTS"] + (L_IDENTS_WIDE if wide else [])
+    L_STRS = globals()["L_STRS"] + (L_STRS_WIDE if wide else [])
 
     def arg():
         return rnd.choice(L_STRS) if rnd.random() < 0.5 else rnd.choice(L_IDENTS)
